@@ -278,6 +278,13 @@ func c10Reassemble(rec []byte) []c10Hello {
 		out = append(out, c10Hello{fmt.Sprintf("assembled: only sni and an empty extension %d", typ), build([]ext{sni, {typ, nil}})})
 		out = append(out, c10Hello{fmt.Sprintf("assembled: empty extension %d first", typ), build(append([]ext{{typ, nil}}, list...))})
 	}
+	// host names a TLS client would not normally send but a TLS server takes as they are: the name is routing
+	// input exactly as written (a ":port" suffix, brackets, upper case, an underscore)
+	for _, name := range []string{"db.example.com:5432", "[2001:db8::1]:8443", "a:b", "UPPER.Example", "under_score.example"} {
+		entry := append([]byte{0, byte(len(name) >> 8), byte(len(name))}, name...)
+		body := append([]byte{byte(len(entry) >> 8), byte(len(entry))}, entry...)
+		out = append(out, c10Hello{fmt.Sprintf("assembled: host name %q", name), build(append([]ext{{0, body}}, rest...))})
+	}
 	// empty SNI extension body, empty host name
 	out = append(out, c10Hello{"assembled: sni with empty name list", build(append([]ext{{0, []byte{0, 0}}}, rest...))})
 	out = append(out, c10Hello{"assembled: sni with zero-length host name", build(append([]ext{{0, []byte{0, 3, 0, 0, 0}}}, rest...))})
@@ -313,7 +320,13 @@ func c10Compare(L *ev.Layer, desc string, rec []byte, mutated bool) {
 		L.Violation("buffers-beyond-first-record", d)
 	}
 	if !sok {
-		return // not well-formed for the TLS stack: only no-panic / bounds were required
+		// not well-formed for the TLS stack: no panic and no read beyond the data are required - and data whose
+		// extension lengths do not add up cannot be walked without reading beyond an extension: it must be rejected
+		if ferr == nil && fok && !c10ExtensionsTile(rec) {
+			d["bytes"] = fmt.Sprintf("%x", rec)
+			L.Violation("hello-whose-extension-lengths-do-not-add-up-accepted", d)
+		}
+		return
 	}
 	if mutated {
 		L.Inc("mutants_accepted_by_tls_stack", 1)
@@ -332,9 +345,58 @@ func c10Compare(L *ev.Layer, desc string, rec []byte, mutated bool) {
 	}
 }
 
+// c10ExtensionsTile reports whether the extension block of a ClientHello record is framed consistently: the
+// declared total equals what is there and the extensions, each with its declared length, end exactly at its end.
+// Anything it cannot reach (short record, broken fixed part) counts as consistent: that is not its subject.
+func c10ExtensionsTile(rec []byte) bool {
+	if len(rec) < 5+4+2+32+1 {
+		return true
+	}
+	b := rec[5+4+2+32:]
+	skip := func(lenBytes int) bool {
+		if len(b) < lenBytes {
+			return false
+		}
+		n := 0
+		for i := 0; i < lenBytes; i++ {
+			n = n<<8 | int(b[i])
+		}
+		if len(b) < lenBytes+n {
+			return false
+		}
+		b = b[lenBytes+n:]
+		return true
+	}
+	if !skip(1) || !skip(2) || !skip(1) { // session id, cipher suites, compression methods
+		return true
+	}
+	if len(b) == 0 {
+		return true // no extensions
+	}
+	if len(b) < 2 {
+		return true
+	}
+	total := int(b[0])<<8 | int(b[1])
+	b = b[2:]
+	if total != len(b) {
+		return false
+	}
+	for len(b) > 0 {
+		if len(b) < 4 {
+			return false
+		}
+		n := int(b[2])<<8 | int(b[3])
+		if len(b) < 4+n {
+			return false
+		}
+		b = b[4+n:]
+	}
+	return true
+}
+
 func TestVerifC10SNI(t *testing.T) {
 	L := ev.Begin("C10", "c10-sni", "exploration",
-		"well-formed corpus: the real crypto/tls client run for the product version window (4) x server name (9: none, 1 char, 63-char label, 253 chars, punycode, upper case, IP literal, trailing dot) x ALPN (3) x cipher list (3) x curves (2, default incl. post-quantum key share) + ticket/PSK resumption + hand-assembled hellos (SNI first/last/absent, no extensions, unknown name type, padding to 512/4096/16384, empty names); oracle: tls.Server on the same bytes (GetConfigForClient) sees the same name, buffered bytes <= first record. malformed: every truncation of every corpus hello, and every single-byte substitution (0x00, 0xff, +-1, 8 bit flips) at every offset of a corpus subset: never a panic; whenever the TLS stack still accepts the bytes and fabio extracts a name, the names agree. non-trivial = corpus hellos")
+		"well-formed corpus: the real crypto/tls client run for the product version window (4) x server name (9: none, 1 char, 63-char label, 253 chars, punycode, upper case, IP literal, trailing dot) x ALPN (3) x cipher list (3) x curves (2, default incl. post-quantum key share) + ticket/PSK resumption + hand-assembled hellos (SNI first/last/absent, no extensions, unknown name type, padding to 512/4096/16384, empty names); oracle: tls.Server on the same bytes (GetConfigForClient) sees the same name, buffered bytes <= first record. malformed: every truncation of every corpus hello, and every single-byte substitution (0x00, 0xff, +-1, 8 bit flips) at every offset of a corpus subset: never a panic; whenever the TLS stack still accepts the bytes and fabio extracts a name, the names agree; bytes whose extension lengths do not add up are rejected. non-trivial = corpus hellos")
 	corpus := c10Corpus()
 	L.Set("corpus", len(corpus))
 	for _, h := range corpus {
